@@ -894,6 +894,10 @@ func concurrentPart(c *vh.Ctx) {
 	if !resolvePart(c, self, false) {
 		return
 	}
+	// what the parser puts into the registry: one loader through the real parser ∥ observers of the published objects
+	if !publishPart(c, self, false) {
+		return
+	}
 	// known stream: concurrent autoload of the same class files. Kept out of the main stream
 	// (known finding C10-autoload-file-marked-before-registered); a crash or a hang here is
 	// still a violation of its own.
@@ -911,6 +915,15 @@ func concurrentPart(c *vh.Ctx) {
 	for rep := 0; rep < c.N(2, 6); rep++ {
 		cfg := resolveCfg{Kind: "resolve", Mix: "loadshared", G: vh.Pick(c.Rand, []int{4, 8, 16}), Rounds: 10, Procs: vh.Pick(c.Rand, []int{4, 8, 16}), NS: 8, Seed: c.Rand.U64() % 1000000}
 		if !resolveOnce(c, self, cfg) {
+			return
+		}
+	}
+	// known stream: declarations the parser registers before it has finished them (an enum before its cases, an
+	// interface before its constants; listed in C10.knownPostPublicationWrites). Kept out of the main publication
+	// stream; anything else that goes wrong here is a violation of its own.
+	for rep := 0; rep < c.N(2, 6); rep++ {
+		cfg := publishCfg{Kind: "publish", Mix: "decl", G: vh.Pick(c.Rand, []int{3, 5, 9}), Rounds: 40, Procs: vh.Pick(c.Rand, []int{4, 8, 16}), Seed: c.Rand.U64() % 1000000}
+		if !publishOnce(c, self, cfg) {
 			return
 		}
 	}
@@ -937,7 +950,18 @@ func concurrentPart(c *vh.Ctx) {
 		return
 	}
 	// the resolution surface under the detector (find / parse / autoload / TempVM)
-	resolvePart(c, rb, true)
+	if !resolvePart(c, rb, true) {
+		return
+	}
+	// a write to a declaration after its publication is a race with every reader of the registry
+	if !publishPart(c, rb, true) {
+		return
+	}
+	// enums / interfaces under the detector: on a tree without fixes/C10-interface-parents-normalised-before-registration.patch
+	// this reports the race on i.Extends (listed finding), so it is opt-in until the patch is applied
+	if os.Getenv("VERIF_C10_DECL_RACE") != "" {
+		publishOnce(c, rb, publishCfg{Kind: "publish", Mix: "decl", G: 4, Rounds: 40, Procs: 8, Seed: c.Rand.U64() % 1000000, Race: true})
+	}
 }
 
 // ------------------------------------------------------------ Run
@@ -951,7 +975,7 @@ func Run(c *vh.Ctx) {
 		defer m.Close()
 		c.Res.ModelUsed = true
 	}
-	c.Res.Rule = "sequential history: contains at least one defining call and one lookup, distinct op lists; class-path manager history: at least one AddNamespace and one FindClassFile; concurrent: distinct (goroutines, calls or rounds, GOMAXPROCS, pool / namespaces, seed, mix) configurations of the registry stress and of the resolution streams (find / parse / load / temp / loadshared)"
+	c.Res.Rule = "sequential history: contains at least one defining call and one lookup, distinct op lists; class-path manager history: at least one AddNamespace and one FindClassFile; concurrent: distinct (goroutines, calls or rounds, GOMAXPROCS, pool / namespaces, seed, mix) configurations of the registry stress and of the resolution streams (find / parse / load / temp / loadshared); publication stream: distinct (goroutines, rounds, GOMAXPROCS, seed) configurations"
 	if len(c.ReplayRaw) > 0 {
 		var k struct {
 			Kind string `json:"kind"`
@@ -997,6 +1021,23 @@ func Run(c *vh.Ctx) {
 			}
 			for i := 0; i < 20; i++ {
 				if !overlapOnce(c, bin, cfg) {
+					break
+				}
+				cfg.Seed++
+			}
+		case "publish":
+			var cfg publishCfg
+			json.Unmarshal(c.ReplayRaw, &cfg)
+			bin := vh.Self()
+			if cfg.Race {
+				if rb, err := buildRace(c); err == nil {
+					bin = rb
+				} else {
+					c.Note("race build failed: %v", err)
+				}
+			}
+			for i := 0; i < 20; i++ {
+				if !publishOnce(c, bin, cfg) {
 					break
 				}
 				cfg.Seed++
